@@ -12,6 +12,16 @@ RULE = ("object-heavy schemas with defaults at every depth (properties, patternP
         "non-trivial = at least one default applied, distinct by hash")
 
 
+SWITCH_FINDING = {
+    "requiredByDefault": "alternative-selected-through-required-default",
+    "floatTolerance": "alternative-selected-through-float-tolerance",
+    "nullSkipsComposition": "alternative-selected-through-null-early-exit",
+    "formatBypassesType": "alternative-selected-through-format-bypass",
+    "ignoresSchemaIdKeys": "alternative-selected-through-schema-id-exemption",
+    "leaksImportant": "alternative-selected-through-important-leak"
+}
+
+
 def correspond(ctx, C):
     n = 8000 if ctx.tier == "quick" else 150000
     if ctx.search:
@@ -19,6 +29,7 @@ def correspond(ctx, C):
     rows = C.run_family("post", n, ctx.seed, ctx.tier, replay=S.replay_file(ctx, C))
     known = {f["id"] for f in S.known_for(C, "C18")}
     not_spec_valid, attributed = 0, 0
+    by_finding = {}
     viol, ties, distinct, samples, valid, applied = [], [], set(), [], 0, 0
     for r in rows:
         c, g, m = r["case"], r["go"], r["m"] or {}
@@ -43,10 +54,18 @@ def correspond(ctx, C):
         if P.canon(m["defaulted"]) != after:
             ties.append((c, {"what": "defaulted data of the code differs from the model's (tie broken)", "go": after, "model": P.canon(m["defaulted"])}))
         complaints = P.check_defaults(P.applies_index(m), before, after)
-        if complaints and "C18-alternative-selected-through-required-default" in known \
-                and P.canon(m["defaulted"]) == after and not P.check_defaults(P.applies_index(m), before, P.canon(m["defaultedReq"])):
-            attributed += 1
-            complaints = []
+        if complaints and P.canon(m["defaulted"]) == after:
+            # the model of the code reproduces the answer: is it the consequence of one open C01 deviation (or of several)?
+            expl = [sw for sw, o in (m.get("bySwitch") or {}).items()
+                    if not P.check_defaults(P.applies_index(m), before, P.canon(o["defaulted"]))]
+            if not expl and not P.check_defaults(P.applies_index(m), before, P.canon((m.get("repaired") or {}).get("defaulted"))):
+                expl = list((m.get("bySwitch") or {}).keys())
+            ids = ["C18-" + SWITCH_FINDING[sw] for sw in expl if sw in SWITCH_FINDING]
+            if ids and all(i in known for i in ids):
+                attributed += 1
+                for i in ids:
+                    by_finding[i] = by_finding.get(i, 0) + 1
+                complaints = []
         if complaints:
             viol.append((c, {"what": "C18 violated: " + complaints[0], "all": complaints[:5], "defaulted": after}))
     out = viol[:3]
@@ -56,9 +75,9 @@ def correspond(ctx, C):
     cov = {"evaluations": len(rows), "distinct_nontrivial": len(distinct), "rule": RULE, "samples": samples,
            "traces_validated_against_impl": valid, "valid_instances": valid, "cases_with_defaults_applied": applied,
            "tie_mismatches": len(ties), "valid_for_code_but_not_draft4": not_spec_valid,
-           "attributed_to_known_findings": attributed}
+           "attributed_to_known_findings": attributed, "attributed_by_finding": by_finding}
     lines = []
-    for f in S.known_for(C, "C18"):
+    for f in [f for f in S.known_for(C, "C18") if f.get("witness")]:
         path = C.os.path.join(C.WORK, "known_C18_%d.jsonl" % C.os.getpid())
         w = dict(f["witness"]); w["fam"] = "post"; w["id"] = f["id"]
         open(path, "w").write(C.json.dumps(w) + "\n")
